@@ -486,8 +486,24 @@ func (le *LockEngine) GuardedBy(r *Run, rule string, spec GuardSpec) int {
 			n++
 			continue
 		}
-		base := pathKey(a.F.Info(), a.Sel.X)
-		if s := a.F.Info().Selections[a.Sel]; s != nil && base != "" {
+		// the object whose mutex guards the field: the selector's operand, or — when the field lives in a nested struct of the
+		// guarded type (x.pending.spans) — the enclosing value of that type
+		owner := ast.Expr(a.Sel.X)
+		if want := lookupType(ix.Pkg, spec.Type); want != nil {
+			for e := owner; ; {
+				if n := namedOf(a.F.Info().TypeOf(e)); n != nil && n.Origin() == want.Origin() {
+					owner = e
+					break
+				}
+				sel, isSel := unparen(e).(*ast.SelectorExpr)
+				if !isSel {
+					break
+				}
+				e = sel.X
+			}
+		}
+		base := pathKey(a.F.Info(), owner)
+		if s := a.F.Info().Selections[a.Sel]; s != nil && base != "" && owner == ast.Expr(a.Sel.X) {
 			base += implicitPath(s, len(s.Index())-1)
 		}
 		if base == "" {
